@@ -141,7 +141,7 @@ class RunResult:
         self.wall = 0.0
         self.unvalidated = False
 
-def run_one(variant, typ, profile, seed, hists, steps, mode="native", extra=(), timeout=600, validate=True, tag=""):
+def run_one(variant, typ, profile, seed, hists, steps, mode="native", extra=(), timeout=600, validate=True, tag="", env_extra=None):
     """one harness run + validation of its trace by the Lean driver"""
     r = RunResult()
     ok, exe, log, _ = build_harness(variant)
@@ -155,7 +155,7 @@ def run_one(variant, typ, profile, seed, hists, steps, mode="native", extra=(), 
         r.crashed = "harness does not build against the current /repo:\n" + log
         return r
     t0 = time.time()
-    rc, out, err, dt = sh(cmd, timeout=timeout)
+    rc, out, err, dt = sh(cmd, timeout=timeout, env=dict(ENV, **(env_extra or {})))
     r.wall = dt
     for line in err.splitlines():
         if line.startswith("ORACLE-FAIL"):
